@@ -14,7 +14,8 @@ import CaresModel.Generated.ProtoCalc
   Whether the tree under check guards the shift is observed by the generator (`Generated.Proto.CALC_SHIFT_GUARDED`).
 * the jitter `(size_t)((float)timeplus * (((float)r / USHRT_MAX) * 0.5f))` is modelled **exactly** (IEEE-754
   binary32, round-to-nearest-even, as x86-64/SSE evaluates it: `FLT_EVAL_METHOD = 0`) by `jitterExact`, using
-  rational arithmetic on `Nat`; the theorems only use the interval fact `jitterOk` (`d ≤ timeplus/2 + timeplus/2²⁴`).
+  rational arithmetic on `Nat`; the theorems use the interval fact `jitterOk` (`d ≤ timeplus·(1/2 + 2⁻²⁴ + 2⁻⁴⁹)`), which
+  `jitterExact` is proved to satisfy (`jitterExact_ok`).
 
 Constants are regenerated from source.  Time is `(sec : Int, usec : Nat)` as in `ares_timeval_t`.
 -/
@@ -150,9 +151,10 @@ def jitterExact (timeplus r : Nat) : Nat :=
     let ft := roundF32 timeplus 1                  -- (float)timeplus
     (ft.mul dm).trunc
 
-/-- the interval the theorems rely on: the jitter never takes away more than half (plus float rounding of a large
-    `timeplus`) -/
-def jitterOk (timeplus d : Nat) : Prop := d ≤ timeplus / 2 + timeplus / 2 ^ 24
+/-- the interval the theorems rely on: the jitter takes away at most `timeplus · (1/2 + 2⁻²⁴ + 2⁻⁴⁹)` — half, plus the two
+    binary32 roundings (of a large `timeplus` and of the product); `CaresLemmas/Float32.lean` proves that `jitterExact`
+    lies in it -/
+def jitterOk (timeplus d : Nat) : Prop := d * 2 ^ 49 ≤ timeplus * (2 ^ 24 + 1) ^ 2
 
 instance (t d : Nat) : Decidable (jitterOk t d) := by unfold jitterOk; infer_instance
 
